@@ -207,10 +207,11 @@ def do_replay(prop, path):
         rp = json.load(f)
     with build_lock():
         okf, _ = build.build_extractor_and_facts()
+        okx, _ = build.build_xlate()
         okl, leanlog = build.lake_build([prop.module, 'mqttdrv'])
         okh, hlog = build.build_harness()
     if rp.get('kind') == 'broken-obligation' and 'ops' not in rp:
-        still = not (okf and okl and okh)
+        still = not (okf and okx and okl and okh)
         print('obligation %s: %s' % (rp.get('obligation'), 'still broken' if still else 'checks again'))
         if still:
             print('VIOLATION property=%s replay=%s no-failing-input-found' % (prop.pid, path))
@@ -273,6 +274,9 @@ def main(argv):
         okf, flog = build.build_extractor_and_facts()
         if not okf:
             broken.append(('regenerated facts', flog))
+        okx, xlog = build.build_xlate()
+        if not okx:
+            broken.append(('regenerated translation of the whitelisted Go functions (xlate)', xlog[-6000:]))
         okl, leanlog = build.lake_build([prop.module, 'mqttdrv'])
         if not okl:
             m = re.search(r'error: (\S+\.lean):(\d+)', leanlog)
